@@ -781,3 +781,87 @@ V('reord-benign-rename-flag', 'C09', 'benign',
         if outermost_request:
             return True""")],
   None, 'renamed local, operands exchanged')
+
+# ------------------------------------------------------------ C08 handles
+V('handle-escape-var', 'C08', 'breaking',
+  [(A, """        r = self._bdd.var(var)
+        return self._wrap(r)""", """        r = self._bdd.var(var)
+        return r""")],
+  'R-PAIR/escape/dd.autoref.BDD.var', 'raw int returned')
+V('handle-escape-succ', 'C08', 'breaking',
+  [(A, "        return i, wrap(v), wrap(w)", "        return i, wrap(v), w")],
+  'R-PAIR/escape/dd.autoref.BDD.succ', 'high successor returned raw')
+V('handle-escape-image', 'C08', 'breaking',
+  [(A, """        qvars, trans.manager, forall)
+    return trans.bdd._wrap(u)
+
+
+def preimage(""", """        qvars, trans.manager, forall)
+    return u
+
+
+def preimage(""")],
+  'R-PAIR/escape/dd.autoref.image', 'image returns the raw node')
+V('handle-double-incref', 'C08', 'breaking',
+  [(A, """        r = self._bdd.quantify(u.node, qvars, forall)
+        return self._wrap(r)""", """        r = self._bdd.quantify(u.node, qvars, forall)
+        self._bdd.incref(r)
+        return self._wrap(r)""")],
+  'R-PAIR/stray-count/dd.autoref.BDD.quantify', 'extra count never released')
+V('handle-init-before-check', 'C08', 'breaking',
+  [(A, """        if node not in bdd._bdd:
+            raise ValueError(node)
+        self.bdd = bdd
+        self.manager = bdd._bdd
+        self.node = node
+        self.manager.incref(node)""", """        bdd._bdd.incref(node)
+        if node not in bdd._bdd:
+            raise ValueError(node)
+        self.bdd = bdd
+        self.manager = bdd._bdd
+        self.node = node""")],
+  None, 'incref before the check: KeyError for unknown nodes, so no leak')
+VARIANTS[-1]['kind'] = 'benign'
+V('handle-del-no-clear', 'C08', 'breaking',
+  [(A, """        node = self.node
+        self.node = None
+        self.manager.decref(node)""", """        node = self.node
+        self.manager.decref(node)""")],
+  'R-PAIR/handle-release/dd.autoref.Function.__del__', 'second __del__ releases again')
+V('handle-copy-shares', 'C08', 'breaking',
+  [(A, "        return Function(self.node, self.bdd)\n\n    def to_expr(",
+       "        return self\n\n    def to_expr(")],
+  None, 'copy returns self: no second owner, benign')
+VARIANTS[-1]['kind'] = 'benign'
+V('handle-copy-removed', 'C08', 'breaking',
+  [(A, """    def __copy__(
+            self
+            ) -> 'Function':
+        \"\"\"Return new reference to the same node.
+
+        The copy increments the reference count
+        of the node, because deleting the copy
+        decrements this reference count.
+        \"\"\"
+        return Function(self.node, self.bdd)
+
+""", "")],
+  'R-PAIR/handle-copy', 'F4 reintroduced')
+V('handle-wrong-manager', ['C08', 'C11'], 'breaking',
+  [(A, """        r = self._bdd.copy(u.node, other._bdd)
+        return other._wrap(r)""", """        r = self._bdd.copy(u.node, other._bdd)
+        return self._wrap(r)""")],
+  'R-DOMAIN/wrong-manager/dd.autoref.BDD.copy', 'copy wrapped by the source manager')
+V('handle-parser-gets-wrapper', ['C08', 'C17'], 'breaking',
+  [(A, """        r = self._bdd.add_expr(e)
+        return self._wrap(r)""", """        return _parser.add_expr(e, self)"""),
+   (A, "import dd._copy as _copy\n", "import dd._copy as _copy\nimport dd._parser as _parser\n")],
+  'R-PAIR/parser-stack', 'Function objects on the cached LR stack')
+V('handle-shutdown-order', 'C08', 'breaking',
+  [(B, """        if self._ref[1] > 0:
+            self.decref(1)
+                # free ref from `self._init_terminal()`
+        self.collect_garbage()
+        refs_exist = any(""", """        self.collect_garbage()
+        refs_exist = any(""")],
+  'R-PAIR/shutdown', 'terminal count never released before the check')
